@@ -25,6 +25,11 @@ def obligations(ctx):
                             path = 2 if key % 4 < 2 else 3
                             # stride of the coefficient-space input: N or N+1, chosen independently of the quick-tier thinning above
                             obs.append(c01.prod_ob(t, path, nn, avx, rsz, asz, asl=nn + ((nrows + asz + ncols) % 2), nrows=nrows, ncols=ncols))
+    # the smallest ring dimension (N=2, m=1: the FFT is the identity, one coefficient pair per limb) on a few shapes, both paths and cpu flags
+    for avx in (0, 1):
+        for (nrows, ncols, rsz, asz) in ((1, 1, 1, 1), (2, 3, 3, 2), (3, 2, 3, 1), (2, 2, 2, 0)):
+            for path in (2, 3):
+                obs.append(c01.prod_ob(t, path, 2, avx, rsz, asz, asl=3, nrows=nrows, ncols=ncols, tag="n2/"))
     # both entry points on the very same shape (apply from coefficients vs apply to the DFT of the same vector): same polynomial
     for nn in (4, 8):
         for (nrows, ncols, rsz, asz) in ((2, 3, 3, 2), (3, 2, 1, 3), (1, 1, 1, 1), (2, 5, 3, 1)):
